@@ -46,6 +46,10 @@ def admissible_base(R, v, ty):
             opts += W.o_sok()
         opts = W.pad4(opts, "01")
     spec["opts"] = opts
+    if R.random() < 0.08:
+        # a payload Scapy dissects as a layer of its own (DNS over TCP), not as Raw: it is payload all the same
+        spec["dport"] = 53
+        spec["payload"] = "0015000001000001000000000000016101620000010001"
     return spec
 
 
@@ -116,6 +120,7 @@ def model_cases(cases, impl_res, run_model):
 
 def impl_init():
     import random
+    import scapy.layers.dns  # noqa: F401  (as after `from scapy.all import *`: a payload to port 53 is dissected as a DNS layer, not Raw)
     st = {"policy": "uniform", "log": [], "R": random.Random(1)}
     real = random.Random(12345)
 
